@@ -549,10 +549,14 @@ def model_2d(drv, case, prog=None, Frand=None, out_stride=10 ** 6):
     import snowing2dutil as s2
 
     prog = prog or _program(case)
+    mi = model_init(case)
+    if mi is not None:
+        return mi
     try:
         S = make_snowing(case, prog)
     except Exception as e:
-        return {"raise": core.exc_class(e), "stage": "init"}
+        # the rule says this case constructs; the model cannot echo the implementation
+        return {"raise": None, "stage": "init", "no_constants": core.exc_class(e)}
     c2 = {"K_shelf": case["k_s0"], "t_tot": prog["t_tot"], "start": prog["start"], "stop": prog["stop"],
           "rate": prog["rate"], "holds": prog.get("holds"), "cn": prog.get("cnTemp"),
           "Frand": Frand if Frand is not None else recorded_frand(0), "outStride": int(out_stride)}
@@ -616,3 +620,53 @@ def cyl_weights(const):
     radius = const["diameter"] / 2
     r = np.linspace(0, radius, 15)
     return wz, simpson_weights(15, radius / 14) * 2 * np.pi * r
+
+
+# ---------------------------------------------------------------------------
+# constructor exceptions: expected ones come from a RULE on the case, never from a second call of the
+# real constructor (audit H1)
+# ---------------------------------------------------------------------------
+def expected_init_error(case):
+    """the exception class `Snowing(...)` / `OperatingConditions(...)` must raise for this case, by the documented
+    rules of the package (None: construction must succeed)"""
+    cfg, dim = case.get("config", "shelf"), case["dim"]
+    if cfg not in ("shelf", "VISF", "jacket"):
+        return "NotImplementedError"
+    if cfg == "VISF" and dim == "0D":
+        return "NotImplementedError"
+    if cfg == "jacket" and dim != "2D":
+        return "NotImplementedError"
+    for pr in programs(case):
+        if pr["rate"] == 0 and pr["start"] != pr["stop"]:
+            return "ValueError"
+        if pr["rate"] == 0 and pr.get("holds"):
+            return "ValueError"
+    return None
+
+
+def init_failures(case, impl, Failure):
+    """construction outcome of the real code against the rule; every other raise is a failure of the property's
+    premise 'the run was made' and is reported"""
+    out = []
+    exp = expected_init_error(case)
+    got = impl.get("raise")
+    if (got or None) != exp:
+        out.append(Failure(clause="complete_or_raise", key=f"unexpected_exception|init|{got}",
+                           detail=f"constructing the Snowing object raised {got} (stage {impl.get('stage')}); by the "
+                                  f"rules of the package this case must {'raise ' + exp if exp else 'construct'}"))
+    for k, run in enumerate(impl.get("runs") or []):
+        if "snap" not in run and run.get("raise"):
+            out.append(Failure(clause="complete_or_raise", key=f"unexpected_exception|{run.get('stage')}|{run['raise']}",
+                               detail=f"preparing run {k} of the object history (stage {run.get('stage')}) raised "
+                                      f"{run['raise']}"))
+    return out
+
+
+def model_init(case):
+    """what the model side says about construction: the expected class by rule, or None (must construct).
+    If the rule says 'constructs' but the real constructor raises, the model has no constants to run on: the
+    mismatch is reported by `compare` (and by `init_failures`)."""
+    exp = expected_init_error(case)
+    if exp:
+        return {"raise": exp, "stage": "init"}
+    return None
